@@ -314,6 +314,30 @@ fn c01_like(tier: Tier, oracles: Oracles, with_drop: bool) -> Vec<Scenario> {
     let mut sc = Scenario::new("edge-m1-owned-args", Cfg { owned_args: true, ..Cfg::default() }, esetup, Box::new(txs_of(&eops, 1, with_drop, true)), if q { 2 } else { 3 }, oracles);
     sc.extra_probes = vec![blob(""), blob("a"), blob("K*1100")];
     out.push(sc);
+    // bulk: whole blocks of keys and buckets per transaction (three- and four-level trees, hundreds
+    // of buckets, free lists that need more than one page)
+    {
+        let block = |b: usize, n: usize, val: &str| -> Vec<OpSpec> { (0..n).map(|i| OpSpec::put(&["bulk"], &format!("b{}-{:04}", b, i), val)).collect() };
+        let del_block = |b: usize, n: usize, step: usize| -> Vec<OpSpec> { (0..n).step_by(step).map(|i| OpSpec::del(&["bulk"], &format!("b{}-{:04}", b, i))).collect() };
+        let nb = if q { 1200 } else { 2500 };
+        let mut acts: Vec<Action> = vec![Action::Reopen];
+        for b in 0..3 {
+            acts.push(tx(block(b, nb, if b == 1 { "w*90" } else { "v*30" })));
+            acts.push(tx(del_block(b, nb, 1)));
+            acts.push(tx(del_block(b, nb, 2)));
+        }
+        let mut mk = vec![OpSpec::bucket("goc", &["bulk"], "many")];
+        for i in 0..150 {
+            mk.push(OpSpec::bucket("goc", &["bulk", "many"], &format!("n{:03}", i)));
+            mk.push(OpSpec::put(&["bulk", "many", &format!("n{:03}", i)], "x", "v*40"));
+        }
+        acts.push(tx(mk));
+        acts.push(tx((0..150).step_by(3).map(|i| OpSpec::bucket("delb", &["bulk", "many"], &format!("n{:03}", i))).collect()));
+        acts.push(tx(vec![OpSpec::bucket("delb", &["bulk"], "many")]));
+        acts.push(tx(vec![OpSpec::put(&["bulk"], "b1-0007", "x*1500"), OpSpec::put(&["bulk"], "zz", "v*8")]));
+        let sc = Scenario::new("bulk-blocks", Cfg { num_pages: 16, ..Cfg::default() }, vec![tx(vec![OpSpec::bucket("create", &[], "bulk")])], Box::new(acts), if q { 3 } else { 4 }, oracles);
+        out.push(sc);
+    }
     // keys of a third of a page: branch pages with few, long separators overflow onto a second page
     {
         let bk: Vec<String> = (0..8).map(|i| format!("K{}*350", i)).collect();
